@@ -28,7 +28,7 @@ func (c *Ctx) lockControls() {
 
 func runC04(c *Ctx) {
 	r := c.R
-	r.Explanation = "Decides the race-freedom clause of C04 as a pairwise consistent-lock-set discipline over every field of Broker, graph and nodeUsage (every write/access pair shares a lock held for writing at the write), immutability after publication of registeredPipeline and linkedNode, confinement of the sync.Map to graphMap's methods, and lock pairing in the root package. It does not decide the linearizability / delivery-count clause (a statement about histories of sync.Map under real interleavings). C04.section: all broker-state accesses of a mutating call lie in one critical section of Broker.lock (check-then-act atomicity). C04.copy: no second holder of the pipeline set is written outside Broker.lock:W (a reader-side cache can overwrite a newer invalidation). C04.self/order/open: the lock-order rules of C12 over the root package (a re-acquired RWMutex wedges all callers). C04.nocopy: no by-value receiver, parameter, result or dereference copy of a type that contains a sync primitive (copylocks is not among the analyzers go test runs). C04.wgfield: a sync.WaitGroup held in a field of a shared object has every Add and Wait under a common lock. C04.escape node-formatted: no Node value is handed to fmt or formatted through String in package eventlogger (fmt would read the node's fields while its Process writes them). C04.seq Reopen:own-walk: every return of Broker.Reopen lies behind its own walk of the graphs (or hands back the context's error); a caller is never answered with the outcome of another call's walk."
+	r.Explanation = "Decides the race-freedom clause of C04 as a pairwise consistent-lock-set discipline over every field of Broker, graph and nodeUsage (every write/access pair shares a lock held for writing at the write), immutability after publication of registeredPipeline and linkedNode, confinement of the sync.Map to graphMap's methods, and lock pairing in the root package. It does not decide the linearizability / delivery-count clause (a statement about histories of sync.Map under real interleavings). C04.section: all broker-state accesses of a mutating call lie in one critical section of Broker.lock (check-then-act atomicity). C04.copy: no second holder of the pipeline set is written outside Broker.lock:W (a reader-side cache can overwrite a newer invalidation). C04.self/order/open: the lock-order rules of C12 over the root package (a re-acquired RWMutex wedges all callers). C04.nocopy: no by-value receiver, parameter, result or dereference copy of a type that contains a sync primitive (copylocks is not among the analyzers go test runs). C04.wgfield: a sync.WaitGroup held in a field of a shared object has every Add and Wait under a common lock. C04.escape node-formatted: no Node value is handed to fmt or formatted through String in package eventlogger (fmt would read the node's fields while its Process writes them). C04.seq Reopen:own-walk: every return of Broker.Reopen lies behind its own walk of the graphs (or hands back the context's error); a caller is never answered with the outcome of another call's walk. C04.selfsync panic-site:registry-deref: an entry of Broker.nodes / Broker.graphs is dereferenced only behind the look-up's ok flag."
 	r.NotDecided = []string{"linearizability of registration for Send and per-pipeline delivery counts", "absence of panics"}
 	c.lockControls()
 
@@ -104,6 +104,7 @@ func runC04(c *Ctx) {
 	c.ruleSingleStore("C04.swap")
 	c.ruleOneSection("C04.section")
 	c.ruleOwnWalkAs("C04.seq")
+	c.ruleRegistryDeref("C04.selfsync")
 	c.ruleNodeNotFormatted("C04.escape")
 	// "a Send that starts after a pipeline's registration returned delivers to that pipeline": what a
 	// successful registration stores is the chain linked by THIS call from the nodes registered now
